@@ -8,11 +8,14 @@ pub struct Min {
     pub target: String,
     pub budget: usize,
     pub used: usize,
+    /// wall-clock bound: a giant scenario (megabyte patterns) can take seconds per
+    /// re-execution; past the deadline the best scenario so far is reported
+    pub deadline: std::time::Instant,
 }
 
 impl Min {
     fn fails(&mut self, sc: &StreamScenario) -> bool {
-        if self.used >= self.budget {
+        if self.used >= self.budget || std::time::Instant::now() > self.deadline {
             return false;
         }
         self.used += 1;
@@ -97,7 +100,7 @@ fn shrink_vec<T: Clone + PartialEq>(
 }
 
 pub fn minimise(sc: &StreamScenario, target: &str, budget: usize) -> (StreamScenario, usize) {
-    let mut min = Min { target: target.to_string(), budget, used: 0 };
+    let mut min = Min { target: target.to_string(), budget, used: 0, deadline: std::time::Instant::now() + std::time::Duration::from_secs(std::env::var("VERIF_MIN_SECS").ok().and_then(|s| s.parse().ok()).unwrap_or(60)) };
     let mut cur = sc.clone();
     if !min.fails(&cur) {
         return (cur, min.used);
